@@ -307,17 +307,19 @@ def _start_nodes(u, envname, depot):
     same_tensor(u, "start.shape", sel, (K * B,), lambda r: sel.at(r))
     # copy j of instance b sits at row j*B+b and is forced to node (j mod N) (+1 with a depot)
     u.prove("start.formula", sel.at(j * B + b) == j % N + off)
+    # C10: the forced first action bypasses the masked distribution, so it must itself be a node the reset mask admits:
+    # a customer index, never the depot, for ANY number of starts (also more starts than nodes: wrap-around)
     u.prove("start.in-range", AND(sel.at(j * B + b) >= off, sel.at(j * B + b) < N + off))
     u.prove("start.distinct-per-instance", IMPL(AND(K <= N, j != j2), sel.at(j * B + b) != sel.at(j2 * B + b)))
     u.canary("start.depot-selected", sel.at(j * B + b) == j % N)  if depot else u.canary("start.shifted", sel.at(j * B + b) == j % N + 1)
 
 
-@unit("ops.select_start_nodes.tsp", file=OPS, func="select_start_nodes", props=("C12",))
+@unit("ops.select_start_nodes.tsp", file=OPS, func="select_start_nodes", props=("C12", "C10"))
 def _(u):
     _start_nodes(u, "tsp", False)
 
 
-@unit("ops.select_start_nodes.cvrp", file=OPS, func="select_start_nodes", props=("C12",))
+@unit("ops.select_start_nodes.cvrp", file=OPS, func="select_start_nodes", props=("C12", "C10"))
 def _(u):
     _start_nodes(u, "cvrp", True)
 
@@ -390,3 +392,38 @@ def _(u):
     obj2 = u.obj(AMD, "PrecomputedCache", fields=(ne, 0.0, gk, gv, lk))
     out2 = u.run(AMD, "PrecomputedCache.batchify", K, selfobj=obj2, record=False)
     u.prove("cache.scalar-graph-context-kept", out2._attrs["graph_context"] == 0.0)
+
+
+# ---- non-autoregressive (heatmap) decoder under multistart: replicated row r reads the heatmap of instance r mod B -------
+NAR = "rl4co/models/common/constructive/nonautoregressive/decoder.py"
+
+
+@unit("nar.decoder.heatmap_to_logits", file=NAR, func="NonAutoregressiveDecoder.heatmap_to_logits", props=("C12", "C11", "C14"))
+def _(u):
+    B, N = u.dims("B N")
+    K = u.dim("K", 2)
+    heat = u.tensor("heatmaps_logits", (B, N, N), "f")
+    act = u.tensor("action", (K * B,), "i")
+    u.requires(u.forall((K * B,), lambda r: AND(act.at(r) >= 0, act.at(r) < N)))
+    mask = u.tensor("action_mask", (K * B, N), "b")
+    td = SymTD({"action": act, "action_mask": mask}, (K * B,))
+    u.inline((NAR, "_multistart_batched_index"))
+    logits, m = u.run(NAR, "NonAutoregressiveDecoder.heatmap_to_logits", td, heat, K)
+    r = u.idx((K * B,), "r")
+    n = u.idx((N,), "n")
+    same_tensor(u, "nar.logits.shape", logits, (K * B, N), lambda rr, nn: logits.at(rr, nn))
+    # row r of the multistart batch belongs to instance r mod B: it must read THAT instance's heatmap row of its own current node
+    u.prove("nar.logits.own-instance-row", logits.at(r, n) == heat.at(r % B, act.at(r), n))
+    u.prove("nar.mask.passed-through", m.at(r, n) == mask.at(r, n))
+    u.canary("nar.logits.instance-major", logits.at(r, n) == heat.at(r / K, act.at(r), n))
+    # single start: identity indexer
+    act1 = u.tensor("action1", (B,), "i")
+    u.requires(u.forall((B,), lambda b: AND(act1.at(b) >= 0, act1.at(b) < N)))
+    td1 = SymTD({"action": act1, "action_mask": u.tensor("action_mask1", (B, N), "b")}, (B,))
+    l1, _ = u.run(NAR, "NonAutoregressiveDecoder.heatmap_to_logits", td1, heat, 1, record=False)
+    b = u.idx((B,), "b")
+    u.prove("nar.logits.single-start", l1.at(b, n) == heat.at(b, act1.at(b), n))
+    # first step (no current action): the mean over the last axis of the heatmap
+    td0 = SymTD({"action_mask": u.tensor("action_mask0", (B, N), "b")}, (B,))
+    l0, _ = u.run(NAR, "NonAutoregressiveDecoder.heatmap_to_logits", td0, heat, K, record=False)
+    u.prove("nar.logits.first-step.shape", tuple(l0.shape) == (B, N))
